@@ -8,6 +8,7 @@ import Nstd.Sync.LemmasRun
 import Nstd.Sync.LemmasScenario
 import Nstd.Sync.LiveSem
 import Nstd.Sync.LiveSemClosed
+import Nstd.Sync.LiveSemPoll
 import Nstd.Sync.LiveSignal
 import Nstd.Sync.LiveMonitor
 import Nstd.Sync.WhatIf
@@ -872,6 +873,14 @@ theorem sem_closed_system_all_waiters_return {c now e : Nat} (r : Run Sem.St Sem
       ((r.st m).ret u = some (.bool true) ∨ ((r.st m0).pc u = .wait ∧ (r.st m).ret u = some (.bool false))) :=
   Sem.closed_system_all_waiters_return r h0 hwf n W hclosed hW m0 hm0 henough u hu hposix
 
+/-- The ENOSYS polling fallback of `Semaphore::wait(timeout)` returns (liveness): on every weakly fair run on which virtual time
+    grows beyond every bound (`Sem.TimeDiverges`; the fallback sleeps, so without the passage of time nothing can be said), a
+    thread inside the fallback eventually returns — true if it finds a unit at one of its polls, false after at most
+    ⌈timeout/stepMs⌉ sleeps (`sem_wait_step_accounting` says which).  ASSUMED: `usleep` returns once its time has passed. -/
+theorem sem_poller_eventually_returns (r : Run Sem.St Sem.Op Sem.step) (hwf : WeakFair r Sem.prog) (htime : Sem.TimeDiverges r)
+    (n : Nat) (u : Tid) (hp : Sem.polling ((r.st n).pc u) = true) : ∃ m, n ≤ m ∧ (r.st m).pc u = .idle :=
+  Sem.poller_eventually_returns r hwf htime _ n u hp (Nat.le_refl _)
+
 /-- A set() issued after a waiter has taken the monitor eventually releases a waiter (liveness): `u` is blocked in
     the untimed wait(), a set() has stored the flag since `u` joined the wait set and the flag is still set.  On every
     run that is weakly fair, whose monitor mutex is starvation-free and on which the clients do not keep the monitor
@@ -906,6 +915,23 @@ example : WeakFair Sem.demoRun Sem.prog ∧ (∀ m, 1 ≤ m → 0 < (Sem.demoRun
     | k + 2 =>
       show 0 < Sem.d2.count
       decide
+
+/-- non-vacuity of `sem_poller_eventually_returns`: the run `Sem.pollRun` (LiveDemo.lean): ENOSYS at a timed wait of 5 ms on an
+    empty semaphore, one poll, one sleep of 10 ms, false; then only time passes -/
+example : WeakFair Sem.pollRun Sem.prog ∧ Sem.TimeDiverges Sem.pollRun ∧ Sem.polling ((Sem.pollRun.st 2).pc 1) = true ∧
+    (Sem.pollRun.st 5).pc 1 = .idle := by
+  refine ⟨?_, ?_, rfl, Sem.p5idle 1⟩
+  · intro t n h
+    have h2 := h (n + 5) (by omega)
+    exfalso
+    have : Sem.prog (Sem.pollRun.st (n + 5)) t = false := by
+      show Sem.prog { Sem.p5 with now := Sem.p5.now + n } t = false
+      simp [Sem.prog, Sem.p5idle t]
+    rw [this] at h2; cases h2
+  · intro T n
+    refine ⟨n + T + 5, by omega, ?_⟩
+    show T ≤ Sem.p5.now + (n + T)
+    omega
 
 /-- the extra hypotheses of `sem_waiter_returns_if_enough_signals` and `signal_every_waiter_eventually_returns` on the
     same runs (their fairness hypotheses are the ones shown above / below) -/
